@@ -6,3 +6,4 @@ import AGV.Props.C08
 #print axioms AGV.Props.C08.c08_intToFloatRound_witness
 #print axioms AGV.Props.C08.c08_strictGateI64_witness
 #print axioms AGV.Props.C08.c08_first_failure_order
+#print axioms AGV.Props.C08.c08_pinned_partial
